@@ -139,7 +139,7 @@ def check(ctx):
     write_jsonl(ctx.path("jobs.jsonl"), jobs)
     del behs, jobs
     build_s = cargo_build(ctx, ["mss"])
-    nrand, nmsg = (150000, 30000) if quick else (3000000, 300000)
+    nrand, nmsg = (100000, 20000) if quick else (3000000, 300000)
     summ, _ = harness(ctx, "mss", ["--jobs", ctx.path("jobs.jsonl"), "--random", nrand, "--random-msg", nmsg, "--seed", ctx.seed,
                                    "--threads", min(10, int(os.environ.get("VERIF_WORKERS", "12"))), "--out", ctx.path("trace.ndjson"), "--jobs-out", ctx.path("jobs_out.jsonl")])
     brief = {k: v for k, v in summ.items() if k != "drift_examples"}
